@@ -6,10 +6,10 @@ PROPERTY = "C12"
 BUDGET = {"quick": 900, "thorough": 3000}
 namespaces = hsys.namespaces
 real_namespace = common.real_namespace
-GOALS = ["producer still paused after a partial drain", "teardown after a socket error releases the producer", "producer paused at the watermark while the client stalls", "producer resumed after the client drained", "producer released by a disconnect",
+GOALS = ["producer still paused after a partial drain", "teardown after a socket error releases the producer", "teardown after a partial send followed by a socket error releases the producer", "producer paused at the watermark while the client stalls", "producer resumed after the client drained", "producer released by a disconnect",
          "degenerate watermark 0 or 1", "write larger than the watermark", "pre-empted schedule explored"]
 ASSUMPTIONS = ["one producing worker, one connection; the client first stalls (from the start or after the first accepted send), then drains everything, "
-               "takes a few bytes and stalls again, disconnects, or its socket fails with EIO; outbuf_high_watermark in [0, 400] and send_bytes in [1, 64] are "
+               "takes a few bytes and stalls again, disconnects, or its socket fails with EIO (at once, or after accepting 1/6/60 more bytes); outbuf_high_watermark in [0, 400] and send_bytes in [1, 64] are "
                "symbolic integers (send_bytes <= watermark + 1 while finding D20 of C05 is recorded)",
                "schedule granularity: lock / condition / socket / pipe / select operations (thorough: plus every source line of channel.py for one scenario)"]
 STUBS = C04.STUBS
@@ -24,7 +24,7 @@ def BOUNDS(tier):
 
 def jobs(tier):
     js = []
-    for end in ("drain", "disconnect", "partial_drain", "error"):
+    for end in ("drain", "disconnect", "partial_drain", "error", "partial_error"):
         for stall in ("start", "after1"):
             for k in ((1, 2) if tier == "quick" else (1, 2, 3)):
                 js.append(dict(name="%s:%s:k%d" % (end, stall, k), end=end, stall=stall, k=k, P=2 if (tier == "thorough" and k == 1) else 1, gran="sync"))
@@ -33,7 +33,7 @@ def jobs(tier):
         js.append(dict(name="disconnect:start:k2:line", end="disconnect", stall="start", k=2, P=1, gran="line"))
     js = common.shard(js, "sz0", len(SIZES), lambda j: j["k"] >= 2)
     js = common.shard(js, "partial", 2, lambda j: j["k"] >= 2)
-    js = common.shard(js, "take", 3, lambda j: j["k"] >= 2 and j["end"] == "partial_drain")
+    js = common.shard(js, "take", 3, lambda j: j["k"] >= 2 and j["end"] in ("partial_drain", "partial_error"))
     return js
 
 
@@ -46,12 +46,12 @@ def make_inputs(job):
     if "D20-send-bytes-above-watermark-deadlock" in [k["id"] for k in runner.load_known("C05") if k.get("kind") == "known"]:
         eng.assume(sb <= wm + 1)  # recorded finding D20 (C05): send_bytes above the watermark
     partial = bool(eng.choose(2, "partial"))
-    take = (1, 6, 60)[eng.choose(3, "take")] if job["end"] == "partial_drain" else 0
+    take = (1, 6, 60)[eng.choose(3, "take")] if job["end"] in ("partial_drain", "partial_error") else 0
     return dict(end=job["end"], stall=job["stall"], sizes=sizes, watermark=wm, send_bytes=sb, partial=partial, take=take, P=job["P"], gran=job["gran"])
 
 
 def scenario(ns, inp):
-    rec = dict(after_write=[], exc=None, done=False, nwrites=0)
+    rec = dict(after_write=[], exc=None, done=False, nwrites=0, fault=False)
     pieces = [bytes([65 + i]) * n for i, n in enumerate(inp["sizes"])]
 
     def app(environ, start_response):
@@ -109,6 +109,21 @@ def scenario(ns, inp):
             def sendf(d):
                 raise OSError(_errno.EIO, "I/O error")
             conn.send = sendf
+        elif inp["end"] == "partial_error":
+            # the socket accepts a few bytes once more (the backlog may fall to or below the mark), then every send fails with EIO
+            import errno as _errno
+            conn.client_reading = True
+            orig4 = conn.send
+            first = [True]
+
+            def send4(d):
+                if first[0]:
+                    first[0] = False
+                    conn.accept = [inp["take"]]
+                    return orig4(d)
+                rec["fault"] = True
+                raise OSError(_errno.EIO, "I/O error")
+            conn.send = send4
         elif inp["end"] == "drain":
             conn.client_reading = True
             if inp["partial"]:
@@ -123,7 +138,7 @@ def scenario(ns, inp):
         sysm.s.spinning = False
         sysm.run()
         chans = sysm.channels()
-        final = dict(wire=bytes(conn.wire()), closed=conn.closed, done=rec["done"], exc=rec["exc"], nwrites=rec["nwrites"],
+        final = dict(fault=rec["fault"], wire=bytes(conn.wire()), closed=conn.closed, done=rec["done"], exc=rec["exc"], nwrites=rec["nwrites"],
                      pending=[c.total_outbufs_len for c in chans], waiters=[len(c.outbuf_lock.waiters) for c in chans],
                      blocked=sorted(sysm.s.blocked()), spinning=sysm.s.spinning, queued=[len(c.requests) for c in chans],
                      ch_total=ch0.total_outbufs_len if ch0 is not None else 0, ch_waiters=len(ch0.outbuf_lock.waiters) if ch0 is not None else 0)
@@ -157,7 +172,8 @@ def oracle(inp, obs):
         out.append(("after the client drained the backlog the producer resumed and finished", fin["done"] and fin["exc"] is None and fin["waiters"] == [0]))
         out.append(("the client received exactly the response, in order, unmodified", fin["wire"].endswith(b"\r\n\r\n" + body) and fin["wire"].count(b"HTTP/1.1 200") == 1))
         out.append(("nothing is left pending", fin["pending"] == [0] and fin["queued"] == [0]))
-    elif inp["end"] == "partial_drain":
+    elif inp["end"] == "partial_drain" or (inp["end"] == "partial_error" and not fin.get("fault")):
+        # (partial_error whose failing send was never reached: the accepted bytes completed the response, nothing faulted)
         if fin["ch_waiters"]:
             out.append(("after a partial drain a paused producer keeps waiting only while the backlog is above the watermark (backlog %d)" % fin["ch_total"],
                         bool(fin["ch_total"] > wm)))
@@ -186,6 +202,8 @@ def goals(cin, cobs):
         out.append("producer still paused after a partial drain")
     if cin["end"] == "error" and cobs["stalled"]["waiters"] and not cobs["final"]["ch_waiters"]:
         out.append("teardown after a socket error releases the producer")
+    if cin["end"] == "partial_error" and cobs["stalled"]["waiters"] and not cobs["final"]["ch_waiters"]:
+        out.append("teardown after a partial send followed by a socket error releases the producer")
     if cin["watermark"] <= 1:
         out.append("degenerate watermark 0 or 1")
     if max(cin["sizes"]) > cin["watermark"]:
